@@ -709,6 +709,13 @@ def run_instance(inst, tier='quick', seed=0, replay_dir=None, prefix=None, first
                             fl['exception'] = _exc_str(e)
                             fl['traceback'] = ''.join(traceback.format_exception(type(e), e, e.__traceback__))[-1500:]
                             fails.append(fl)
+                if inst.frame and not isinstance(out[1] if out[0] == 'exc' else None, FrameViolation):
+                    # every caller-owned array has read-only storage: a write through any view would have raised
+                    nro = sum(1 for a in B.arrays.values() if isinstance(a, SymArray) and not a.data.flags.writeable)
+                    if nro:
+                        rep['obligations'].append({'name': 'frame[no write to %d caller-owned arrays on this path]' % nro,
+                                                   'status': 'discharged', 'time': 0.0, 'backend': 'read-only-storage', 'kind': 'frame'})
+                        rep['backends']['read-only-storage'] = rep['backends'].get('read-only-storage', 0) + 1
                 # ---- replay failed obligations on the real code
                 for fl in fails:
                     _replay(inst, rep, fl, seed, replay_dir, conc_samples)
